@@ -1,3 +1,4 @@
+\* quick: one reconnect between call and ack, one context expiry, Close at any moment
 SPECIFICATION Spec
 CONSTANTS
   Callers = {P1, P2}
